@@ -330,3 +330,17 @@ class Ctx:
         print("[%s] tier=%s seed=%d obligations=%d discharged=%d evals=%d violations=%d wall=%.1fs" % (
             self.pid, self.tier, self.seed, nob, ndis, self.evals, nviol, wall), flush=True)
         return 1 if nviol else 0
+
+
+def quiet_dassh():
+    """DASSH logs warnings/errors through `logging`; keep the check output readable
+    (errors still raise SystemExit, which is what the checks look at)."""
+    import logging
+    lg = logging.getLogger('dassh')
+    lg.addHandler(logging.NullHandler())
+    lg.propagate = False
+    import warnings
+    warnings.filterwarnings("ignore", category=RuntimeWarning)
+
+
+quiet_dassh()
